@@ -966,7 +966,10 @@ class Walker:
     if is_for and self.unroll and isinstance(itv, Seq) and 0 < len(itv.items) <= 8:
       yield from self.unrolled(n, itv.items, st)
       return
-    info = self.loop_info.setdefault(id(n), {"node": n, "modified": sorted(mod), "iter": itv})
+    if self.quiet:
+      info = {"node": n, "modified": sorted(mod), "iter": itv}   # trial run of an enclosing loop: keep no record
+    else:
+      info = self.loop_info.setdefault(id(n), {"node": n, "modified": sorted(mod), "iter": itv})
     # candidate invariants v = E (last syntactic rhs before the loop)
     cands = {}
     for v in sorted(mod):
